@@ -13,6 +13,8 @@ structure Probe where
   base : List Nat
   enc : List (List Nat)
   dec : List (List Nat)
+  /-- the decoded operand values (registers as bank, index) for each flipped wire bit -/
+  decv : List (List Int)
   deriving Repr
 
 def kindNBits : FieldKind → Nat
@@ -122,7 +124,28 @@ def modelDecProbe (row : Row) : List (List Nat) :=
       | [] => [9999]
     | none => [9999]
 
+def flatValues : Operand → List Int
+  | .reg r => [(r.bank : Int), r.idx]
+  | .imm v => [v]
+  | .addr a => [a]
+  | .entry a i => [a, (i.bank : Int), i.idx]
+  | .slice a s e => [a, (s.bank : Int), s.idx, (e.bank : Int), e.idx]
+
+/-- full decoded values (not only bits) after flipping each wire bit of the all-zero encoding -/
+def modelDecValues (row : Row) : List (List Int) :=
+  (List.range 48).map fun k =>
+    match modelBase row with
+    | some z =>
+      match flipBit z (8 + k) with
+      | _ :: body =>
+        match decodeOps row.shape body with
+        | some ops => ops.flatMap flatValues
+        | none => [9999]
+      | [] => [9999]
+    | none => [9999]
+
 def probeOk (p : Probe) : Bool :=
   modelBase p.row == some p.base && p.enc == modelEncProbe p.row && p.dec == modelDecProbe p.row
+    && p.decv == modelDecValues p.row
 
 end NQ
